@@ -369,6 +369,7 @@ pub fn directed() -> Vec<Doc> {
                                 vertex: [vec![b(640, Mode::Miniz(6))], vec![b(64, Mode::Raw)], vec![]],
                                 index: [vec![b(120, Mode::Stored)], vec![b(12, Mode::Raw)], vec![]],
                                 fill: 13,
+                                layout: 0,
                             }),
                         ),
                     ],
